@@ -3,6 +3,7 @@ package gram
 import (
 	"bytes"
 	"fmt"
+	"runtime/metrics"
 	"strings"
 
 	"github.com/opsidian/parsley/ast"
@@ -196,7 +197,7 @@ type Env struct {
 }
 
 func NewEnv(in string) *Env {
-	f := text.NewFile("f", []byte(in))
+	f := NewFileFrom("f", []byte(in))
 	fs := parsley.NewFileSet(f)
 	return &Env{File: f, FS: fs, Ctx: parsley.NewContext(fs, text.NewReader(f)), Base: int(f.Pos(0))}
 }
@@ -238,13 +239,28 @@ func Filler(name string, n int, b byte) parsley.File {
 // integer or a fixed table could assume for a global position (16, 20, 24, 31, 32, 40 bits), on either side.
 var BigOffsets = []int{65528, 65536, 70000, 1<<20 - 6, 1<<20 + 5, 1<<24 + 3, 1<<31 - 4, 1<<31 + 7, 1<<32 - 5, 1<<32 + 9, 1 << 40}
 
+// NewFileFrom creates a text.File the way a loader with a scratch buffer does: the content is copied into a buffer,
+// the buffer is handed to text.NewFile and overwritten right afterwards. The file must have kept its own copy.
+func NewFileFrom(name string, content []byte) *text.File {
+	scratch := append([]byte{}, content...)
+	f := text.NewFile(name, scratch)
+	for i := range scratch {
+		if i%2 == 0 {
+			scratch[i] = '\n'
+		} else {
+			scratch[i] ^= 0x5a
+		}
+	}
+	return f
+}
+
 // NewEnvAt places the file after `before` bytes of other files
 func NewEnvAt(in string, before []int) *Env {
 	fs := parsley.NewFileSet()
 	for i, n := range before {
 		fs.AddFile(Filler(fmt.Sprintf("pre%d", i), n, 'z'))
 	}
-	f := text.NewFile("f", []byte(in))
+	f := NewFileFrom("f", []byte(in))
 	// both legal construction orders: reader before / after the file joins the set
 	var rd *text.Reader
 	if len(before)%2 == 1 {
@@ -260,9 +276,16 @@ func NewEnvAt(in string, before []int) *Env {
 // NewEnvIn adds the file to a file set that already holds the inputs of earlier parses (a document set: one file set,
 // one file and one context per input)
 func NewEnvIn(fs *parsley.FileSet, in string) *Env {
-	f := text.NewFile("f", []byte(in))
+	f := NewFileFrom("f", []byte(in))
+	// both legal construction orders: reader before / after the file joins the set
+	var rd *text.Reader
+	if len(in)%2 == 1 {
+		rd = text.NewReader(f)
+	}
 	fs.AddFile(f)
-	rd := text.NewReader(f)
+	if rd == nil {
+		rd = text.NewReader(f)
+	}
 	return &Env{File: f, FS: fs, Ctx: parsley.NewContext(fs, rd), Base: int(f.Pos(0))}
 }
 
@@ -375,11 +398,29 @@ func (gd *Guard) Reset(base int) {
 	gd.active = map[[2]int]int{}
 }
 
+// MaxHeapBytes: a case is abandoned (budget: inconclusive) when the worker's heap passes this size
+var MaxHeapBytes uint64 = 2 << 30
+
+var heapSample = []metrics.Sample{{Name: "/memory/classes/heap/objects:bytes"}}
+
+func heapBytes() uint64 {
+	metrics.Read(heapSample)
+	if heapSample[0].Value.Kind() != metrics.KindUint64 {
+		return 0
+	}
+	return heapSample[0].Value.Uint64()
+}
+
 // Tick counts one probe event and enforces the logical budget
 func (gd *Guard) Tick(ctx *parsley.Context) {
 	gd.Events++
 	if gd.Events > gd.MaxEvents {
 		panic(BudgetExceeded{"probe events"})
+	}
+	if gd.Events%256 == 0 && heapBytes() > MaxHeapBytes {
+		// a case whose result lists stay under MaxList but are rebuilt so often that the worker would run out of memory:
+		// not judged (inconclusive for this case), the worker goes on
+		panic(BudgetExceeded{"heap bytes"})
 	}
 	if ctx.CallCount() > gd.MaxCalls {
 		panic(BudgetExceeded{"parser calls"})
